@@ -215,7 +215,8 @@ def case_mu2(log):
                 want1 = q1 * xi if (mode == "exponentiated" or (mode == "expanded" and not thr)) else q1
                 for nm, got, want in (("mu2[0]", m0, want0), ("mu2[1]", m1, want1)):
                     v = prove_zero(SR(0) + got - want, "Operator.mu2 %s for mode %s, is_threshold=%s" % (nm, mode, thr))
-                    log.decide(v, key="Operator.mu2:%s" % mode, replay=None)
+                    log.decide(v, key="Operator.mu2:%s" % mode, replay=(MOD, "replay_mu2", {"mode": mode, "thr": thr}),
+                               candidates=[{"q2_from": Fraction(3), "q2_to": Fraction(50), "xif2": Fraction(5, 2)}])
         log.twin("domain")
 
     _r, pm = explore(run)
@@ -297,6 +298,27 @@ def replay_kernel(point, sector, order, method, scheme, diag=False):
     ex = math.log(pairs[-2][1] / pairs[-1][1]) / math.log(pairs[-2][0] / pairs[-1][0])
     if ex < order - 0.5:
         return {"detail": "%s %s %s order %d (nf 4, L=%.2f): relative |K_sv - K| at lam=1,1/2,1/4,1/8 = %r scales like lam^%.2f < %d" % (sector, scheme, method, order, L, errs, ex, order)}
+    return None
+
+
+def replay_mu2(point, mode, thr):
+    """real Operator.mu2 on numbers vs the documented scales (exponentiated: both ends at xif2*mu2; expanded: only the final,
+    non-threshold end; unvaried: none)"""
+    import eko.evolution_operator as eo
+    from eko.io.types import ScaleVariationsMethod
+
+    q0, q1, xi = (float(point.get(k, d)) for k, d in (("q2_from", 3.0), ("q2_to", 50.0), ("xif2", 2.5)))
+    if not (q0 > 0 and q1 > 0 and xi > 0):
+        return None
+    enumv = {"unvaried": None, "exponentiated": ScaleVariationsMethod.EXPONENTIATED, "expanded": ScaleVariationsMethod.EXPANDED}[mode]
+    op = object.__new__(eo.Operator)
+    op.config = {"xif2": xi, "ModSV": enumv}
+    op.q2_from, op.q2_to, op.is_threshold = q0, q1, thr
+    m0, m1 = op.mu2
+    want0 = q0 * xi if mode == "exponentiated" else q0
+    want1 = q1 * xi if (mode == "exponentiated" or (mode == "expanded" and not thr)) else q1
+    if abs(m0 - want0) > 1e-12 * want0 or abs(m1 - want1) > 1e-12 * want1:
+        return {"detail": "Operator.mu2 (mode %s, is_threshold=%s, q2_from=%r, q2_to=%r, xif2=%r) = %r but the documented scales are %r" % (mode, thr, q0, q1, xi, (m0, m1), (want0, want1))}
     return None
 
 
